@@ -104,12 +104,14 @@ def run_one(rec):
                 if st == "existing":
                     with open(p, "w") as f:
                         f.write("KEEP = 1\n")
-                argv += ["--output-filename", p]
+                # HOME is the project directory: `~/out.py` is the same file under another spelling
+                argv += ["--output-filename", ("~/out.py" if inv.get("spelling") == "tilde" else p)]
             if inv["flags"]:
                 argv += ["--name-tpl", "{name}Config", "--input-mapping", "gen_mod_x.mapping", "--type", "class"]
         before = snapshot(root)
         env = child_env()
         env["PYTHONPATH"] = root + os.pathsep + env["PYTHONPATH"]
+        env["HOME"] = root
         p = subprocess.run([PY, "-m", "doctrans"] + argv, cwd=root, env=env, stdout=subprocess.PIPE, stderr=subprocess.PIPE, text=True, timeout=120)
         after = snapshot(root)
         err = p.stderr
@@ -139,7 +141,8 @@ def feat_of(rec, clause):
     elif inv["cmd"] == "sync_properties":
         f.update(input=inv["input"], output=inv["output"], params=inv["params"])
     else:
-        f.update(output=inv["output"], flags=inv["flags"])
+        f.update(output=inv["output"], flags=inv["flags"], spelling=inv.get("spelling", "plain"),
+                 exc=(rec["stderr"].strip().splitlines()[-1].split(":")[0] if rec["out"] == "internal" and rec["stderr"].strip() else "none"))
     return f
 
 
